@@ -150,7 +150,13 @@ def check_c12(tier):
     res = run_space(exe, "c12", tier, os.path.join(b.dir, "c12.out"))
     add_violations(rep, res, "C12")
     n, g = eval_consistency(rep, res)
-    cover(rep, [res])
+    results = [res]
+    if tier == "thorough":
+        res2 = run_space(exe, "c12v", tier, os.path.join(b.dir, "c12v.out"))
+        add_violations(rep, res2, "C12")
+        n2, g2 = eval_consistency(rep, res2); n += n2; g += g2
+        results.append(res2)
+    cover(rep, results)
     rep.coverage["eval_observations"] = n; rep.coverage["distinct_assignments_evaluated"] = g
     rep.assumptions += ["alphabet: handles {a,b} x solutions {euler_1d, heateq_2d_steady_const} x one parameter per solution with values {default, 7.5} x both registries (quick: reduced alphabet on the long double registry)",
                         "reference model: map handle -> (solution, parameter map) + selection, per registry; defaults captured from a fresh process"]
